@@ -27,6 +27,11 @@ func (o *Obligation) Script(withModel bool) string {
 		b.WriteString(d + "\n")
 	}
 	for _, d := range e.decls {
+		if (o.Cover || o.NoAxioms) && strings.HasPrefix(d, "(assert (forall") {
+			// reachability covers are run without the quantified background axioms
+			// (order/injectivity axioms): solvers rarely return sat in their presence
+			continue
+		}
 		b.WriteString(d + "\n")
 	}
 	// implements facts
@@ -69,6 +74,7 @@ type SolveResult struct {
 	Model   string
 	Output  string
 	All     map[string]string // backend -> status
+	CandidateModel bool // model obtained with the quantified background axioms dropped
 }
 
 type solverSpec struct {
@@ -201,6 +207,18 @@ func SolveAll(obls []*Obligation, dir string, timeout time.Duration, par int) ma
 			defer wg.Done()
 			defer func() { <-sem }()
 			r := Solve(o.Script(true), dir, o.Name, timeout, nil)
+			if !o.Cover && r.Status != "unsat" && r.Status != "sat" && r.Status != "error" {
+				// counterexample search: without the quantified background axioms the
+				// solvers can return a (candidate) model, which replay then validates
+				o2 := *o
+				o2.NoAxioms = true
+				r2 := Solve(o2.Script(true), dir, o.Name+".cex", timeout, nil)
+				if r2.Status == "sat" {
+					r.Model = r2.Model
+					r.CandidateModel = true
+					r.Backend = r2.Backend
+				}
+			}
 			mu.Lock()
 			out[o] = r
 			mu.Unlock()
